@@ -32,6 +32,9 @@ def main(tier="quick"):
     for pid, plan in lifecheck.PLANS.items():
         jobs.append(lambda p=plan: lifecheck.transitions(p["profile"], p[tier]))
     jobs.append(lambda: primcheck.cases(1 if tier == "quick" else 2))
+    import sesscheck
+    for prof, depth in sesscheck.DEPTH[tier].items():
+        jobs.append(lambda p=prof, d=depth: sesscheck.transitions(p, d))
     # shapes first (shared), then everything else in parallel
     dyncases.shapes(3, 3)
     with ThreadPoolExecutor(6) as ex:
